@@ -203,6 +203,9 @@ func init() {
 					nl := countLeaves(sh)
 					for pos := 1; pos <= nl; pos++ {
 						for pi := 0; pi < 3; pi++ {
+							if pi == 2 && (si+pos)%3 != 0 {
+								continue // the re-binding variant on a third of the positions
+							}
 							if !c.mine(idx) {
 								idx++
 								continue
@@ -226,6 +229,29 @@ func init() {
 							idx++
 						}
 					}
+				}
+				// the small exhaustive families of gen_ext.go
+				for _, np := range append(enumJumpPrograms(), enumDataPrograms()...) {
+					if c.mine(idx) {
+						w.write(runSem(np.id, sl, np.prog, renderProgram(np.prog, nil)))
+					}
+					idx++
+				}
+				for _, np := range enumSelectorPrograms() {
+					if c.mine(idx) {
+						w.write(runSem(np.id, sl, np.prog, renderProgram(np.prog, nil)))
+						w.write(runSem(np.id+"-infix", sl+":infix", np.prog, renderInfixProgram(np.prog)))
+					}
+					idx++
+				}
+				continue
+			}
+			if sl == "scopeshapes" {
+				for _, np := range enumScopePrograms() {
+					if c.mine(idx) {
+						w.write(runSem(np.id, sl, np.prog, renderProgram(np.prog, nil)))
+					}
+					idx++
 				}
 				continue
 			}
